@@ -247,9 +247,15 @@ where
         // `part_weights` changes at the end of each pass, so `thread_max_pws`
         // needs to be updated here.
         for (max_pw, pw) in thread_max_pws.iter_mut().zip(&part_weights) {
-            *max_pw = *pw
-                + W::from_f64((max_part_weight - *pw).to_f64().unwrap() / thread_count as f64)
-                    .unwrap();
+            // `max_part_weight - pw` must not be evaluated when the part is already
+            // heavier than the cap: it underflows for unsigned weight types.
+            *max_pw = if *pw <= max_part_weight {
+                *pw + W::from_f64((max_part_weight - *pw).to_f64().unwrap() / thread_count as f64)
+                    .unwrap()
+            } else {
+                *pw - W::from_f64((*pw - max_part_weight).to_f64().unwrap() / thread_count as f64)
+                    .unwrap()
+            };
         }
 
         // The actual pass.
